@@ -26,7 +26,7 @@ Require Import Fggs.Proofs.SP_mono Fggs.Proofs.SP_trees Fggs.Proofs.Viterbi_trop
                Fggs.Proofs.Viterbi_examples Fggs.Proofs.Kleene_scc
                Fggs.Proofs.ViterbiAlg_base Fggs.Proofs.ViterbiAlg_loop Fggs.Proofs.ViterbiAlg_recon
                Fggs.Proofs.ViterbiAlg_opt Fggs.Proofs.ViterbiAlg_check Fggs.Proofs.ViterbiAlg_main
-               Fggs.Proofs.ViterbiAlg_examples.
+               Fggs.Proofs.ViterbiAlg_examples Fggs.Proofs.ViterbiAlg_rhsasst.
 Local Open Scope nat_scope.
 
 (** * 0. the carrier: (max, +) on [-inf, +inf] is an ordered commutative semiring *)
@@ -211,6 +211,17 @@ Theorem C04_rebuild_roundtrip :
   forall G r xi a, In a (cands G r xi) -> rebuild r xi (sel a (summed r)) = a.
 Proof. exact rebuild_roundtrip. Qed.
 Print Assumptions C04_rebuild_roundtrip.
+
+(** [reconstruct]'s loop over the edges' nodes with the counter [ii] and the dict [rhs_asst]
+    ([rhs_asst_code], modelled statement by statement) computes [rebuild] when the pointer row
+    has one entry per summed-out node, and fails (IndexError / assertion) otherwise; [a0]
+    witnesses that the parent's assignment is consistent on repeated external nodes *)
+Theorem C04_reconstruct_assignment :
+  forall r xi ptr a0, sel a0 (r_ext r) = xi ->
+    rhs_asst_code r xi ptr
+    = if Nat.eqb (length (summed r)) (length ptr) then Some (rebuild r xi ptr) else None.
+Proof. exact rhs_asst_code_spec. Qed.
+Print Assumptions C04_reconstruct_assignment.
 
 (** ONE evaluation of F_viterbi at a cell: the value is the max over the rules of the max over
     the candidates of the edge product; if it is not -inf, the lhs_pointer names a rule of the
